@@ -41,6 +41,13 @@ def jobs(tier):
         base = {"max": mx, "min": mn, "tasks": ["ret", "ret"], "clients": [["start", "enq0", "await0"], ["enq1", "await1"]],
                 "props": ["exactly_once", "results", "bounded"], "window_at": 0, "twin_prog": "progress"}
         out.append((dict(base, name="c09-twoclients-max{0}min{1}".format(mx, mn)), dict(full, depth=14 if not thorough else 18)))
+    if thorough:
+        # the same windows reached through a second history (workers scheduled first in the prefix)
+        extra = []
+        for spec, regime in out:
+            if regime["name"] == "all-interleavings" and spec.get("window_at", 0) >= 1 and not spec.get("hold"):
+                extra.append((dict(spec, name=spec["name"] + "-wf", prefix_order="workers_first"), regime))
+        out += extra
     return out
 
 
